@@ -602,6 +602,11 @@ func (e *evaluator) evalAgainstType(v Val, name string, depth int) (Verdict, str
 	if !ok {
 		return Unspec, "type " + name + " not registered"
 	}
+	if _, ok := t.Rule("or"); ok && (t.Kind == gen.KObject || t.Kind == gen.KArray) {
+		// a container that is only the example of a choice of types: the alternatives decide
+		ex := Val{t.Kind, t.Lit}
+		return e.evalRulesEx(v, t.Rules, &ex, depth+1)
+	}
 	switch t.Kind {
 	case gen.KObject, gen.KArray:
 		if v.Kind == gen.KNull {
